@@ -102,8 +102,9 @@ class Custom(object):
     induction over instances of a post-condition).  `build(repo)` returns a list of
     (suffix, hyps [z3 Bool], claim z3 Bool)."""
 
-    def __init__(self, name, build, note='', replay=None):
+    def __init__(self, name, build, note='', replay=None, targets=None):
         self.name = name
         self.build = build
         self.note = note
         self.replay = replay
+        self.targets = list(targets or [])      # (file, qualified name) of the real functions whose AST the obligations are read from
